@@ -33,3 +33,5 @@ open A2l.Typed
 #print axioms conforming_decodes_needs_flat
 #print axioms old_fixup_struct_inlined_struct_members
 #print axioms renderSpec_roundtrip_rootStruct
+#print axioms rootStruct_depth
+#print axioms renderSpec_roundtrip_needs_depth
